@@ -70,7 +70,7 @@ pub fn run(ctx: &Ctx) -> Report {
             }
         }
     }
-    let cases = ctx.tier.pick(800_000, 20_000_000) / ctx.shard_count() as u32;
+    let cases = ctx.tier.pick(800_000, 12_000_000) / ctx.shard_count() as u32;
     run_prop(ctx, "c17-synth", cases, 3000, gen::synth_strategy(), &mut rep, |ent, rep| {
         let Some(p) = gen::synth_pos(&mut Entropy::new(ent)) else {
             rep.class("synth:rejected");
